@@ -618,4 +618,26 @@ def run (cfg : Cfg) (fuel : Nat) (sched : List Act) (pick : List Name → Nat) :
     ⟨st, st.log ++ waitPhase st sched ++ [Ev.shutdownbegin] ++ shutdownLog st.modules (threadsOf st) st.edges pick⟩
   else ⟨st, st.log⟩
 
+/-! ### restart: the next turn of the loop of `Server.run` (server.py:152-247)
+
+`Server.run` is `while self._restart: … self._processCfg() … serve … self.secnode.shutdown_modules()`: a restart is a
+further life of a node on the **same** `Server` object.  What a round hands to the next one is `srv.module_cfg` — the
+descriptions loaded once by `Server.__init__` — and nothing else: `_processCfg` makes a new `SecNode`, every module
+object is made anew, and the table of automatic communicators is the one of the new node (io.py, repaired: a `uri`
+registered by an earlier node names a communicator that does not exist on this one and is created again).  A round does
+not change a loaded description (`get_module_instance` works on `dict(opts)`, `_add_accessible` reads the parameter
+dictionaries); the only entries it adds are the products of the Pinatas (`self.srv.module_cfg[modname] = options`,
+secnode.py:190), which the next round finds as declared modules. -/
+
+/-- the configuration the next round starts from -/
+def restartCfg (cfg : Cfg) (fuel : Nat) : Cfg := { cfg with mods := (startup cfg fuel).known }
+
+/-- fuel that is never exhausted on `cfg` (what the driver uses) -/
+def fuelFor (cfg : Cfg) : Nat := 4 * (cfg.mods.length + cfg.dyn.length) + 8
+
+/-- the configuration of round `k` (0 = the first start) -/
+def roundCfg (cfg : Cfg) : Nat → Cfg
+  | 0 => cfg
+  | k + 1 => restartCfg (roundCfg cfg k) (fuelFor (roundCfg cfg k))
+
 end Frappy.Lifecycle
